@@ -19,6 +19,7 @@ import z3
 
 from hv import core, extract, pyvc
 from hv.driver import Bounded, Spec
+from hv.pyvc import to_z3
 
 TCS = "hta.common.trace_call_stack"
 CS = "hta.common.call_stack"
@@ -532,6 +533,181 @@ def add_edge_vcs(module: str, tag: str, new_style: bool) -> List[core.VC]:
     return vcs
 
 
+# ---------------------------------------------------------------------------------------------- endpoint array construction
+
+
+def _prefix_until_event_loop(fn_node, ex, env, is_main_loop):
+    """Execute the statements of the builder up to (not including) the loop over `events`; single path expected."""
+    pc: List[Any] = []
+    for st in fn_node.body:
+        if isinstance(st, ast.For) and is_main_loop(st):
+            return pc, env, st
+        outs = ex.exec_stmt(st, pc, env)
+        live = [o for o in outs if o.kind == "fall"]
+        if len(live) != 1:
+            # early exits (raise / return) on conditions that are false under the contract's precondition are pruned by feasibility
+            live = [o for o in live if ex.feasible(o.pc)]
+        if len(live) != 1:
+            raise pyvc.Unsupported(f"builder prefix forks at line {st.lineno}")
+        pc, env = live[0].pc, live[0].env
+    raise pyvc.Unsupported("loop over events not found")
+
+
+def array_vcs_new() -> List[core.VC]:
+    from hv import framevc as fv
+
+    f = extract.get_function(TCS, "CallStackGraph._construct_call_stack_graph")
+    node = extract.stripped(f)
+    consts = extract.module_constants(TCS)
+    name = f"{PROP}.tcs.array"
+    fq = [f.fq]
+    ex = pyvc.Exec(consts=consts, name=name)
+    fv.install(ex)
+    cols = {"index": (z3.IntSort(), False, "int"), "ts": (z3.IntSort(), False, "int"), "dur": (z3.IntSort(), False, "int"),
+            "stream": (z3.IntSort(), False, "int"), "index_correlation": (z3.IntSort(), False, "int")}
+    df = fv.SymDF.base("thread", cols)
+    captured: Dict[str, Any] = {}
+    devcls = pyvc.EnumCls("DeviceType", {"UNKNOWN": 0, "CPU": 1, "GPU": 2})
+    ex.consts["DeviceType"] = devcls
+
+    @pyvc.intrinsic
+    def sort_events(exq, pc, env, args, kwargs):
+        captured["sorted_arg"] = args[0]
+        return None
+
+    @pyvc.intrinsic
+    def is_events_sorted(exq, pc, env, args, kwargs):
+        return True  # established by the comparator obligations + the sorted() contract
+
+    @pyvc.intrinsic
+    def np_unique(exq, pc, env, args, kwargs):
+        arr = args[0]
+        if isinstance(arr, fv.FrameArray) and kwargs.get("axis") == 0:
+            exq.oblige("unique_dtype", pc, z3.BoolVal(not arr.dtype_object),
+                       "np.unique(events, axis=0) requires a numeric (non-object) array: every column of the melted frame must be numeric")
+            return arr
+        raise pyvc.Unsupported("np.unique pattern")
+
+    ex.intrinsics["sort_events"] = sort_events
+    ex.intrinsics["is_events_sorted"] = is_events_sorted
+    npn = ex.consts["np"]
+    npn.members["unique"] = np_unique
+    old_len = pyvc._BUILTINS["len"]
+
+    @pyvc.intrinsic
+    def my_len(exq, pc, env, args, kwargs):
+        if isinstance(args[0], fv.FrameArray):
+            return z3.Int("len_events")
+        return old_len(exq, pc, args, kwargs)
+
+    ex.intrinsics["len"] = my_len
+    selfrec = pyvc.Record("CallStackGraph", {"device_type": devcls.member("CPU"), "root_index": z3.Int("root_index")})
+    pc, env, loop = _prefix_until_event_loop(node, ex, {"self": selfrec, "df": df}, lambda st: isinstance(st.iter, ast.Name) and st.iter.id == "events")
+    events = env.get("events")
+    if not isinstance(events, fv.FrameArray):
+        raise pyvc.Unsupported("`events` is not the to_numpy() of a frame")
+    if captured.get("sorted_arg") is not events:
+        raise pyvc.Unsupported("sort_events is not applied to `events`")
+    t = events.df
+    vcs: List[core.VC] = []
+    for pv in ex.vcs:
+        vcs.append(core.VC(pv.name, pv.hyps, pv.goal, "vc", fq, {}, note=pv.note))
+    # spec: exactly two rows per host event (stream == -1): (index, dur, -1, ts) and (index, dur, +1, ts + dur), columns in the comparator's order
+    want = [None] * 4
+    want[consts["_I_INDEX"]], want[consts["_I_DUR"]], want[consts["_I_KIND"]], want[consts["_I_TIME"]] = "index", "dur", "kind", "time"
+    vcs.append(core.VC(f"{name}.column_order", [], z3.BoolVal(events.columns == want), "vc", fq, {}, note=f"array columns {events.columns} must be {want} (= _I_INDEX, _I_DUR, _I_KIND, _I_TIME)"))
+    if events.columns == want and t.uni.arity == 2 and t.uni.parents and t.uni.parents[0] is df.uni:
+        r = t.uni.skolem("m")
+        base = (r[0],)
+        host = z3.And(df.present(base), df.cols["stream"].val(base) == -1)
+        pres = to_z3(t.present(r))
+        mv = {"row": r[0], "which": r[1], "ts": df.cols["ts"].val(base), "dur": df.cols["dur"].val(base)}
+        vcs.append(core.VC(f"{name}.two_rows_per_host_event", list(ex.facts), pres == z3.And(host, r[1] >= 0, r[1] <= 1), "vc", fq, mv,
+                           note="one open and one close endpoint for every event with stream == -1, nothing else"))
+        is_open = r[1] == 0
+        vcs.append(core.VC(f"{name}.row_values", list(ex.facts) + [pres],
+                           z3.And(to_z3(t.cols["index"].val(r)) == df.cols["index"].val(base), to_z3(t.cols["dur"].val(r)) == df.cols["dur"].val(base),
+                                  to_z3(t.cols["kind"].val(r)) == z3.If(is_open, consts["OPEN_END"], consts["CLOSE_END"]),
+                                  to_z3(t.cols["time"].val(r)) == z3.If(is_open, df.cols["ts"].val(base), df.cols["ts"].val(base) + df.cols["dur"].val(base))),
+                           "vc", fq, mv, note="(index, dur, kind, time) = (id, dur, OPEN_END, ts) / (id, dur, CLOSE_END, ts + dur)"))
+        vcs.append(core.VC(f"{name}.guard.canary_false", [pres], z3.BoolVal(False), "canary", fq))
+    else:
+        vcs.append(core.VC(f"{name}.two_rows_per_host_event", [], z3.BoolVal(False), "vc", fq, {}, note="the events array is not a melt of the thread's frame"))
+    return vcs
+
+
+def array_vcs_old() -> List[core.VC]:
+    from hv import framevc as fv
+
+    f = extract.get_function(CS, "CallStackGraph._construct_call_stack_graph")
+    node = extract.stripped(f)
+    consts = extract.module_constants(CS)
+    name = f"{PROP}.cs.array"
+    fq = [f.fq]
+    ex = pyvc.Exec(consts=consts, name=name)
+    fv.install(ex)
+    cols = {"index": (z3.IntSort(), False, "int"), "ts": (z3.IntSort(), False, "int"), "dur": (z3.IntSort(), False, "int"),
+            "stream": (z3.IntSort(), False, "int"), "index_correlation": (z3.IntSort(), False, "int")}
+    df = fv.SymDF.base("thread", cols)
+    devcls = pyvc.EnumCls("DeviceType", {"UNKNOWN": 0, "CPU": 1, "GPU": 2})
+    ex.consts["DeviceType"] = devcls
+    ex.consts["CallStackNode"] = pyvc.RecordCtor("CallStackNode", ["parent", "depth", "children"])
+    ex.consts["Event"] = pyvc.RecordCtor("Event", ["idx", "time", "dur", "type"], frozen=True)
+
+    class NodesDict:
+        def hv_call_method(self, exq, attr, args, kwargs, pc, env):
+            if attr == "clear":
+                return None
+            return NotImplemented
+
+        def hv_setitem(self, exq, idx, v, pc):
+            return None
+
+        def __deepcopy__(self, memo):
+            return self
+
+    selfrec = pyvc.Record("CallStackGraph", {"device_type": devcls.member("CPU"), "nodes": NodesDict(), "filter_func": None, "correlations": None})
+    is_tuples = lambda st: isinstance(st.iter, ast.Call) and isinstance(st.iter.func, ast.Attribute) and st.iter.func.attr == "itertuples"
+    pc, env, loop = _prefix_until_event_loop(node, ex, {"self": selfrec, "df": df}, is_tuples)
+    t = ex.eval(loop.iter.func.value, pc, env)
+    if not isinstance(t, fv.SymDF) or t.uni is not df.uni:
+        raise pyvc.Unsupported("itertuples is not over a frame derived row-wise from the thread frame")
+    r = df.uni.skolem("r")
+    row = pyvc.Record("Row", {c: t.cols[c].val(r) for c in t.cols}, frozen=True)
+    events = env.get("events")
+    if events != []:
+        raise pyvc.Unsupported("`events` is not an empty list before the loop")
+    env2 = dict(env)
+    env2["events"] = []
+    env2 = ex.assign(loop.target, row, pc, env2)
+    outs = ex.exec_block(loop.body, pc, env2)
+    if len(outs) != 1 or outs[0].kind != "fall":
+        raise pyvc.Unsupported("event creation loop body forks")
+    made = outs[0].env["events"]
+    d0 = z3.If(df.cols["dur"].val(r) > 0, df.cols["dur"].val(r), 0)
+    ts, idx = df.cols["ts"].val(r), df.cols["index"].val(r)
+    mv = {"row": r[0], "ts": ts, "dur": df.cols["dur"].val(r)}
+    vcs: List[core.VC] = []
+    for pv in ex.vcs:
+        vcs.append(core.VC(pv.name, pv.hyps, pv.goal, "vc", fq, mv, note=pv.note))
+    vcs.append(core.VC(f"{name}.rows", list(ex.facts), to_z3_bool(t.present(r)) == df.present(r), "vc", fq, mv, note="every event of the thread frame is turned into endpoints"))
+    ok_shape = len(made) == 2 and all(isinstance(e, pyvc.Record) and e.cls == "Event" for e in made)
+    if ok_shape:
+        a, b = made
+        spec = z3.And(pyvc.to_z3(a.fields["idx"]) == idx, pyvc.to_z3(a.fields["time"]) == ts, pyvc.to_z3(a.fields["dur"]) == d0, pyvc.to_z3(a.fields["type"]) == consts["EVENT_START"],
+                      pyvc.to_z3(b.fields["idx"]) == idx, pyvc.to_z3(b.fields["time"]) == ts + d0, pyvc.to_z3(b.fields["dur"]) == d0, pyvc.to_z3(b.fields["type"]) == consts["EVENT_END"])
+        vcs.append(core.VC(f"{name}.two_events_per_row", list(ex.facts) + [df.present(r)], spec, "vc", fq, mv,
+                           note="Event(id, ts, max(dur,0), START) and Event(id, ts + max(dur,0), max(dur,0), END)"))
+    else:
+        vcs.append(core.VC(f"{name}.two_events_per_row", [], z3.BoolVal(False), "vc", fq, mv, note="loop body does not append exactly two Events"))
+    vcs.append(core.VC(f"{name}.guard.canary_false", [df.present(r)], z3.BoolVal(False), "canary", fq))
+    return vcs
+
+
+def to_z3_bool(x):
+    return pyvc.to_z3(x)
+
+
 # ---------------------------------------------------------------------------------------------- spec oracle & bounded stage
 
 
@@ -657,7 +833,7 @@ def _chunk_eval(args):
             continue
         for idmode in (0, 1):
             ids = list(range(len(fam))) if idmode == 0 else [10 + 3 * (len(fam) - 1 - i) for i in range(len(fam))]
-            events = [(ids[i], 100 + 10 * s, 10 * (e - s)) for i, (s, e) in enumerate(fam)]
+            events = [(ids[i], 100 + s, e - s) for i, (s, e) in enumerate(fam)]  # unit grid: durations 0, 1, 2, ... occur
             known = in_known_class_d4(events)
             for which, runner in (("trace_call_stack", run_new_builder), ("call_stack", run_old_builder)):
                 out["n"] += 1
@@ -749,6 +925,8 @@ def units(ctx) -> List[core.Unit]:
         core.Unit("C03.compare_events", lambda: comparator_vcs("compare_events", _less_old_factory, False), [CS + ".compare_events"]),
         core.Unit("C03.tcs.loop", loop_body_vcs_new, [TCS + ".CallStackGraph._construct_call_stack_graph"]),
         core.Unit("C03.cs.loop", loop_body_vcs_old, [CS + ".CallStackGraph._construct_call_stack_graph"]),
+        core.Unit("C03.tcs.array", array_vcs_new, [TCS + ".CallStackGraph._construct_call_stack_graph"]),
+        core.Unit("C03.cs.array", array_vcs_old, [CS + ".CallStackGraph._construct_call_stack_graph"]),
         core.Unit("C03.tcs.add_edge", lambda: add_edge_vcs(TCS, "tcs", True), [TCS + ".CallStackGraph._add_edge"]),
         core.Unit("C03.cs.add_edge", lambda: add_edge_vcs(CS, "cs", False), [CS + ".CallStackGraph._add_edge"]),
     ]
